@@ -1,3 +1,66 @@
-import PGM.Model.Solvers
+import PGM.Proofs.ZerosSem
+/-!
+# C10 — structural zeros carry no mass in any answer
+
+Theorems about the models of `Factor.active`, `CliqueVector.combine` and the solvers' parameter
+updates (`PGM/Model/Solvers.lean`), at the `LogOf K` reading (exp-space 0 = log-space `-∞`), any
+ordered field.  Chain: `zeros_installed` (after `_setup` the joint vanishes on every assignment
+extending a declared cell) → `update_preserves_zeros` (MD / IG updates and warm-start `combine` keep
+it so, for every iteration count) / `combine_reinstalls_zeros` (RDA, which rebuilds its parameters,
+re-applies them) → `zero_in_all_answers` (hence every marginal onto a tuple covering the declared
+attributes vanishes there; by C01/C02 these marginals are the answers).  The theorems are for
+`tau = 0`; RDA/IG refit with `log(· + 1e-100)`, so numerically "zero" means `≤ 1e-80·total`.
+-/
 namespace PGM.C10
+open PGM PGM.JT PGM.Sem PGM.Zeros
+variable {K : Type} [Field K] [LinearOrder K] [IsStrictOrderedRing K]
+
+/-- the indicator factor: exp-space 0 on declared cells, 1 elsewhere -/
+theorem active_sem (d : Dom) (z : ZeroSpec) (τ : Attr → Nat) (hd : d.WF) (hnd : z.zc.Nodup)
+    (hsub : ∀ a ∈ z.zc, a ∈ d.attrs) (hτ : d.Valid τ) :
+    ((Factor.active (⟨0⟩ : LogOf K) (d.project z.zc) z.cells).sem τ).v
+      = (open Classical in if Hits z τ then (0 : K) else 1) := by
+  apply Zeros.active_sem <;> assumption
+
+/-- **zeros are installed** (`_setup`): after combining the zero potentials with the structural
+zeros — every zero clique being inside some model clique — the product of the potentials vanishes at
+every joint assignment extending a declared cell, and is 1 elsewhere -/
+theorem zeros_installed (d : Dom) (cliques : List Clique) (zs : List ZeroSpec) (τ : Attr → Nat)
+    (hd : d.WF) (hcl : ∀ c ∈ cliques, c.Nodup ∧ ∀ a ∈ c, a ∈ d.attrs) (hcn : cliques.Nodup)
+    (hz : ∀ z ∈ zs, z.zc.Nodup ∧ (∀ a ∈ z.zc, a ∈ d.attrs) ∧ ∃ c ∈ cliques, JT.subset z.zc c = true)
+    (hτ : d.Valid τ) :
+    joint (K := K) (CliqueVec.combine (CliqueVec.zerosV d cliques) (zeroVec d zs)) τ
+      = (open Classical in if ∃ z ∈ zs, Hits z τ then (0 : K) else 1) := by
+  apply Zeros.zeros_installed <;> assumption
+
+/-- **additive parameter updates preserve zeros** (mirror descent `θ − α·dL`, interior gradient
+`θ − (a/c/total)·g`, warm-start `combine`): adding *any* vector to the parameters multiplies the
+exp-space value cell by cell, so a zero cell stays zero -/
+theorem update_preserves_zeros (d : Dom) (theta h : CliqueVec (LogOf K)) (c : Clique) (τ : Attr → Nat)
+    (hd : d.WF) (hθ : (theta.get c).WF ∧ (theta.get c).dom.Agrees d ∧ ∀ a ∈ (theta.get c).dom.attrs, a ∈ d.attrs)
+    (hh : (h.get c).WF ∧ (h.get c).dom.Agrees d ∧ ∀ a ∈ (h.get c).dom.attrs, a ∈ (theta.get c).dom.attrs)
+    (hc : c ∈ theta.map Prod.fst) (hτ : d.Valid τ) :
+    (((CliqueVec.addV theta h).get c).sem τ).v = ((theta.get c).sem τ).v * ((h.get c).sem τ).v := by
+  apply Zeros.update_preserves_zeros <;> assumption
+
+/-- **dual averaging re-installs the zeros**: whatever vector `b` the averaged gradient produces,
+`combine b zeros` vanishes (exp-space) at the declared cells -/
+theorem combine_reinstalls_zeros (d : Dom) (cliques : List Clique) (b : CliqueVec (LogOf K)) (zs : List ZeroSpec)
+    (τ : Attr → Nat) (hd : d.WF) (hcl : ∀ c ∈ cliques, c.Nodup ∧ ∀ a ∈ c, a ∈ d.attrs) (hcn : cliques.Nodup)
+    (hkeys : b.map Prod.fst = cliques) (hb : ∀ p ∈ b, p.2.WF ∧ p.2.dom = d.project p.1)
+    (hz : ∀ z ∈ zs, z.zc.Nodup ∧ (∀ a ∈ z.zc, a ∈ d.attrs) ∧ ∃ c ∈ cliques, JT.subset z.zc c = true)
+    (hτ : d.Valid τ) (hit : ∃ z ∈ zs, Hits z τ) :
+    joint (CliqueVec.combine b (zeroVec d zs)) τ = 0 := by
+  apply Zeros.combine_reinstalls_zeros <;> assumption
+
+/-- **zero in every answer**: if the joint vanishes at every assignment extending the declared cell
+`(zc, cell)`, then the marginal onto any attribute tuple containing `zc` vanishes at every
+assignment extending that cell — in-clique, out-of-clique, full vector alike (the answers are
+`total · marginal / Z` by C01/C02) -/
+theorem zero_in_all_answers (d : Dom) (pots : CliqueVec (LogOf K)) (z : ZeroSpec) (as : List Attr)
+    (σ : Attr → Nat) (hd : d.WF) (has : as.Nodup) (hsub : ∀ a ∈ as, a ∈ d.attrs) (hzc : ∀ a ∈ z.zc, a ∈ as)
+    (hzero : ∀ τ, Hits z τ → joint pots τ = 0) (hσ : Hits z σ) :
+    marginal d pots as σ = 0 := by
+  apply Zeros.zero_in_all_answers <;> assumption
+
 end PGM.C10
